@@ -139,6 +139,11 @@ def decoyPolicy : Policy := simplePolicy 7
 /-- idempotence flags from the op line: a query's flag, or one flag per batch entry in order ("-" = no entries) -/
 def parseFlags (s : String) : Option (List Bool) :=
   if s == "-" then some []
+  -- a query in a session with DefaultIdempotence = true: no statement-level setting / Idempotent(false)
+  else if s == "D" then some [queryIdempotent true none]
+  else if s == "F" then some [queryIdempotent true (some false)]
+  else if s == "1" then some [queryIdempotent false (some true)]
+  else if s == "0" then some [queryIdempotent false none]
   else s.toList.mapM fun c => if c == '1' then some true else if c == '0' then some false else none
 
 /-- `IsIdempotent()` of the statement: the query's flag; a batch: every entry's flag (`batchIdempotent`) -/
